@@ -718,6 +718,15 @@ class Interp:
                 kind = "term" if "term" in (la.kind, lb.kind) else "py"
                 return LinV(F.lin_add(la.lin, lb.lin, 1 if op == "Add" else -1), kind)
         if op == "Mult":
+            # [c] * n: n copies of one value (a list of constants of symbolic length)
+            for x, y in ((a, b), (b, a)):
+                if isinstance(x, Ref) and isinstance(self.deref(x), HList) and not self.deref(x).is_set and len(self.deref(x).segs) == 1 and self.deref(x).segs[0][0] == "one":
+                    ln = self.as_lin(y)
+                    if ln is not None:
+                        if F.lin_is_const(ln.lin):
+                            return self.alloc(HList([self.deref(x).segs[0]] * max(ln.lin[1], 0)))
+                        bq = self.fresh_var("r")
+                        return self.alloc(HList([("each", bq, ("members", ("range", F.lin_const(0), ln.lin)), PTRUE, self.deref(x).segs[0][1])]))
             for x, y in ((a, b), (b, a)):
                 if isinstance(x, Const) and x.value in (1, -1) and isinstance(y, ElemV) and y.role == "lit":
                     if x.value == 1:
@@ -875,6 +884,10 @@ class Interp:
                         return pred_not(self.pred_of(b))
                     if oa.concrete() and ob.concrete() and [desc(x) for x in oa.values()] == [desc(x) for x in ob.values()]:
                         return PTRUE
+                    if oa.concrete() and ob.concrete() and all(isinstance(x, Const) for x in list(oa.values()) + list(ob.values())) and oa.is_set == ob.is_set:
+                        # two sequences of constants: equal iff the same constants (in order; as sets for sets)
+                        va, vb = [x.value for x in oa.values()], [x.value for x in ob.values()]
+                        return ("const", (set(va) == set(vb)) if oa.is_set else (va == vb))
                 if isinstance(oa, HList) and isinstance(ob, HList):
                     return ("cmp", "==", self.list_desc(oa), self.list_desc(ob))
         for x, y in ((a, b), (b, a)):
@@ -1074,6 +1087,7 @@ class Interp:
         return self.subscript(v, idx, node)
 
     def slice(self, v, lo, hi, st, node):
+        lo, hi, st = [Const(x.lin[1]) if isinstance(x, LinV) and F.lin_is_const(x.lin) else x for x in (lo, hi, st)]
         if isinstance(v, Const) and all(x is None or isinstance(x, Const) for x in (lo, hi, st)):
             try:
                 return Const(v.value[slice(lo.value if lo else None, hi.value if hi else None, st.value if st else None)])
